@@ -31,7 +31,7 @@ def oracle_irr(E, lam_nm, prefix):
 
 @st.composite
 def conv_case(draw, with_units=None):
-    kind = draw(st.sampled_from(["scalar", "1d", "nd-last", "nd-axis", "nd-axis"]))
+    kind = draw(st.sampled_from(["scalar", "1d", "nd-last", "nd-axis", "nd-axis", "nd-bcast"]))
     n = draw(st.integers(1, 8))
     wl = draw(gens.array((n,), 100.0, 2000.0, styles=("raw", "int100")))
     if kind == "scalar":
@@ -44,9 +44,17 @@ def conv_case(draw, with_units=None):
     else:
         ndim = draw(st.integers(2, 3))
         shape = [draw(st.integers(1, 4)) for _ in range(ndim)]
+        wl_axis = wl_full = None
         if kind == "nd-last":
             shape[-1] = n
             axis = draw(st.sampled_from([None, -1, ndim - 1]))
+        elif kind == "nd-bcast":
+            # no axis= : the wavelengths come as an "array that can be broadcast to the spectrum" (documented form), i.e. shaped
+            # (.., n, 1, ..) with n on any axis, or already broadcast to the full shape
+            wl_axis = draw(st.integers(0, ndim - 1))
+            shape[wl_axis] = n
+            axis = None
+            wl_full = draw(st.booleans())
         else:
             k = draw(st.integers(0, ndim - 1))
             shape[k] = n
@@ -54,7 +62,7 @@ def conv_case(draw, with_units=None):
         spec = draw(gens.array(tuple(shape), -1e6, 1e6))
     units = draw(st.booleans()) if with_units is None else with_units
     return dict(
-        spec=spec, wl=wl, axis=axis, kind=kind,
+        spec=spec, wl=wl, axis=axis, kind=kind, **(dict(wl_axis=wl_axis, wl_full=wl_full) if kind == "nd-bcast" else {}),
         prefix=draw(st.sampled_from([None, "", "milli", "micro", "nano"])),
         return_units=draw(st.sampled_from([None, True, False])),
         spec_units=(draw(st.sampled_from(["native", "si", "milli-si"])) if units else None),
@@ -101,6 +109,8 @@ def _wl_broadcast(case):
         return spec, wl
     axis = case["axis"]
     ax = (spec.ndim - 1) if axis is None else axis % spec.ndim
+    if case.get("wl_axis") is not None:
+        ax = case["wl_axis"]
     shape = [1] * spec.ndim
     shape[ax] = wl.size
     return spec, wl.reshape(shape)
@@ -124,6 +134,12 @@ def _build_args(case, dreye, spec=None):
             unit = {"native": "E", "si": "mol/m**2/s/nm", "milli-si": "mmol/m**2/s/nm"}[su]
             factor = 1e-3 if su == "milli-si" else 1.0
         spec_arg = spec_arg * ureg(unit)
+    if case.get("wl_axis") is not None and wl.ndim == 1:
+        shp = [1] * np.ndim(case["spec"])
+        shp[case["wl_axis"]] = wl.size
+        wl = wl.reshape(shp)
+        if case.get("wl_full"):
+            wl = np.broadcast_to(wl, np.shape(case["spec"])).copy()
     wl_arg = wl if wl.ndim else float(wl)
     if case.get("wl_int") and np.all(wl == np.round(wl)):
         wl_arg = wl.astype(np.int64) if wl.ndim else int(wl)            # np.arange(300, 700, 50): integer-typed wavelengths
@@ -157,6 +173,8 @@ def _labels(case):
     nt = False
     if spec.ndim >= 2 and case["axis"] is not None and (case["axis"] % spec.ndim) != spec.ndim - 1:
         labs.append("nt:wavelength-not-last-axis")
+    if case.get("wl_axis") is not None and case["wl_axis"] != spec.ndim - 1:
+        labs.append("nt:broadcast-wavelengths-not-last-axis")
     if case["spec_units"] or case["wl_units"]:
         labs.append("nt:quantity-input")
     if case["prefix"]:
@@ -267,6 +285,8 @@ def body_linear_elementwise(case):
         o3, _ = _call(c2, dreye, spec=s1)
         o3 = np.asarray(o3, dtype=float)
         ax = (s1.ndim - 1) if case["axis"] is None else case["axis"] % s1.ndim
+        if case.get("wl_axis") is not None:
+            ax = case["wl_axis"]
         same = np.delete(o3, k, axis=ax)
         ref = np.delete(o1, k, axis=ax)
         check(np.array_equal(same, ref), "elementwise:other-slices-changed", "changing one wavelength sample changed other slices")
